@@ -61,6 +61,23 @@ CLAIMS = {
         note=NOTE_COMMON + "Long names equal to an attribute of the element class are excluded by the property itself; TOLERANT level.",
         technique="Lean 4 proof (case analysis of the resolution functions; decide +kernel over tables) + exhaustive differential correspondence",
         design="DESIGN.md §5 C14"),
+    'C03': dict(
+        text="Proved on the full model of parse_segments (group finder as a zipper, with its admission checks), for every structure, text and level: with group "
+             "finding on, the flattened tree is a sublist in document order of the segments parsed from the input lines, each kept segment being the parse of its "
+             "own line (nothing reordered, duplicated or invented); with group finding off every non-empty line becomes exactly one segment (nothing dropped). "
+             "'Never a shorter message' is FALSE with group finding on (finding D4): kernel-checked witness C03_witness_drop. Leaf preservation inside a segment "
+             "is decided by the correspondence + oracle (partial).",
+        note=NOTE_COMMON + "Leaf values are canonical; the within-segment leaf clause is not a theorem.",
+        technique="Lean 4 proof (induction over the line fold with a zipper invariant) + kernel-checked counterexample + differential correspondence",
+        design="DESIGN.md §5 C03"),
+    'C08': dict(
+        text="Same theorems as C03 for order preservation and determinism (every structure, every input). Soundness (each element a declared child), equality of "
+             "encodings with groups on/off, and exactness of the tree for unique-name structures are decided by the correspondence and the implementation-side "
+             "oracle over instances derived from the structures (thorough: every structure of every version); exactness is false for non-anchored repeatable groups "
+             "(finding D16) and validation is impossible for structures with duplicate rows (finding D17).",
+        note=NOTE_COMMON + "Soundness and exactness are not theorems yet (partial).",
+        technique="Lean 4 proof (zipper invariant) + differential correspondence on instances generated from every structure",
+        design="DESIGN.md §5 C08"),
 }
 
 PENDING = {}
